@@ -250,6 +250,9 @@ theorem C15_closed_is_final (s : St) (p : Nat) (op : Op) (pl : Pool) (hp : s.poo
     have : setDial s q ok = updPool s q (fun pl => { pl with dialOk := ok }) := by unfold setDial updPool; rfl
     show ∃ pl', (setDial s q ok).pools[p]? = some pl' ∧ pl'.closed = true
     rw [this]; exact upd s q _ (fun _ => rfl) pl hp hc
+  | expire q =>
+    show ∃ pl', (expire s q).pools[p]? = some pl' ∧ pl'.closed = true
+    rw [expire_eq]; exact upd s q _ (fun _ => rfl) pl hp hc
   | release q => exact relk s q pl hp hc
   | close q =>
     show ∃ pl', (close s q).pools[p]? = some pl' ∧ pl'.closed = true
@@ -395,6 +398,9 @@ theorem step_ext (s : St) (op : Op) : Ext s.conns (step s op).conns := by
   | setDial p ok =>
     show Ext s.conns (setDial s p ok).conns
     unfold setDial; cases s.pools[p]? <;> exact Ext.refl _
+  | expire p =>
+    show Ext s.conns (expire s p).conns
+    rw [expire_eq, updPool_conns]; exact Ext.refl _
   | release p => exact release_ext s p
   | close p =>
     show Ext s.conns (close s p).conns
@@ -563,7 +569,29 @@ theorem C20_getConn_ok (s : St) (isRead : Bool) (u : St) (c : Nat)
     getConn s isRead = (updPool u (routePool s isRead) (fun pl => { pl with order := 0 }), some c, false) := by
   unfold getConn; simp only; rw [hg]
 
+/-- what `route` does with a flagged replica, as the code has it: while the ban has not run out the replica is
+    picked (and un-flagged); once it has run out the replica is skipped and reads go to the master - until the
+    health monitor clears the flag (DESIGN §9: the log messages say the opposite) -/
+theorem route_with_flagged_replica (s : St) (rp : Pool) (h : s.pools[1]? = some rp) (hf : rp.flag = true) :
+    routePool s true = (if rp.banPassed then 0 else 1) ∧ routePool s false = 0 := by
+  unfold routePool; rw [h]; simp [hf]
+  cases rp.banPassed <;> rfl
+
+/-- a replica that is not flagged gets the reads, a master-only topology sends everything to the master -/
+theorem route_unflagged (s : St) :
+    (∀ rp, s.pools[1]? = some rp → rp.flag = false → routePool s true = 1) ∧
+    (s.pools[1]? = none → ∀ r, routePool s r = 0) := by
+  constructor
+  · intro rp h hf; unfold routePool; rw [h]; simp [hf]
+  · intro h r; unfold routePool; rw [h]
+
 /-! ### non-vacuity: concrete histories evaluated by the kernel -/
+
+/-- the replica cannot be dialled, is flagged, its ban runs out: the next read goes to the master -/
+example :
+    let s := run (init 1 true) [.setDial 1 false, .req true, .expire 1]
+    (serve s true).2 = .fwd 0 ∧ ((serve s true).1.conns.map (·.pool)) = [0] := by decide
+
 
 /-- two connections dialled, the older one lost: `Get` skips it, hands out the live one; when that is lost too a
     third one is dialled -/
